@@ -219,6 +219,11 @@ func deferFn(fm *Frame, fn Callable) error {
 	deferTraceback := fm.traceback
 	fm.addDefer(func(fm *Frame) Exception {
 		err := fn.Call(fm, NoArgs, NoOpts)
+		if err == nil {
+			// Don't wrap nil in a non-nil exception: it would take the place
+			// of a real exception from another deferred callback.
+			return nil
+		}
 		if exc, ok := err.(Exception); ok {
 			return exc
 		}
